@@ -823,6 +823,10 @@ func (w *worker) Run(ctx context.Context, req taskRunRequest, reply *taskRunRepl
 	}
 	task.state = TaskRunning
 	task.Unlock()
+	// The task may have run on this worker before (its output was lost or
+	// discarded): its metrics are those of this run only, as in the local
+	// executor.
+	task.Scope.Reset(nil)
 	// Gather inputs from the bigmachine cluster, dialing machines
 	// as necessary.
 	var (
